@@ -107,15 +107,19 @@ Definition inv_tab := list (nat * dspec * option dspec * option bool).
 (* recorded answers of np.linalg.matrix_rank(M) < n: (n, matrix, answer, check the contract "answer iff det M = 0"?) *)
 Definition rank_tab := list (nat * dspec * bool * bool).
 Definition key_tol : Q := 1 # 1000000000.
+(* keys are matched relative to their magnitude: the model recomputes the matrix exactly, the implementation in floats *)
+Definition qmax2 (a b : Q) : Q := if Qle_bool a b then b else a.
+Definition amax1 (d : list C) : Q := fold_right (fun c acc => qmax2 (Qabs (cre c)) (qmax2 (Qabs (cim c)) acc)) 1%Q d.
+Definition key_close (d k : list C) : bool := d_close (key_tol * amax1 k) d k.
 Definition hyp_tol : Q := 1 # 1000000.
 Definition tab_inv (t : inv_tab) : inv_oracle := fun _ n d =>
-  match find (fun e => match e with (n', m, _, _) => Nat.eqb n n' && d_close key_tol d (dval m) end) t with
+  match find (fun e => match e with (n', m, _, _) => Nat.eqb n n' && key_close d (dval m) end) t with
   | Some (_, _, Some b, _) => Some (dval b)
   | _ => None
   end.
 (* a matrix the implementation never put to the rank test counts as refused: if the code stops asking, the model disagrees *)
 Definition tab_rank (t : rank_tab) : rank_oracle := fun _ n d =>
-  match find (fun e => match e with (n', m, _, _) => Nat.eqb n n' && d_close key_tol d (dval m) end) t with
+  match find (fun e => match e with (n', m, _, _) => Nat.eqb n n' && key_close d (dval m) end) t with
   | Some (_, _, answer, _) => answer
   | None => true
   end.
@@ -214,10 +218,14 @@ def np_():
 def to_impl(v):
     np = np_()
     from mitxgraders.helpers.calc.math_array import MathArray
-    if v[0] == 'num':
-        return v[2]
     dt = {'i': np.int64, 'f': np.float64, 'c': np.complex128}[v[1]]
+    if v[0] == 'num':
+        return dt(v[2]) if is_np_num(v) else v[2]       # ('num', kind, z, 'np'): the same number as a numpy scalar
     return MathArray(np.array(v[3], dtype=dt).reshape(v[2]))
+
+
+def is_np_num(v):
+    return v[0] == 'num' and len(v) > 3 and v[3] == 'np'
 
 
 def kind_of_number(x):
@@ -270,7 +278,7 @@ def jsonable(v):
     def z2(z):
         return [z.real, z.imag] if isinstance(z, complex) else z
     if v[0] == 'num':
-        return ['num', v[1], z2(v[2])]
+        return ['num', v[1], z2(v[2])] + (['np'] if is_np_num(v) else [])
     return ['arr', v[1], list(v[2]), [z2(z) for z in v[3]]]
 
 
@@ -278,7 +286,7 @@ def unjson(j):
     def z2(z):
         return complex(z[0], z[1]) if isinstance(z, list) else z
     if j[0] == 'num':
-        return ('num', j[1], z2(j[2]))
+        return ('num', j[1], z2(j[2])) + (('np',) if len(j) > 3 else ())
     return ('arr', j[1], tuple(j[2]), [z2(z) for z in j[3]])
 
 
@@ -712,7 +720,7 @@ def short(v):
     if v is None:
         return 'None'
     if v[0] == 'num':
-        return repr(v[2])
+        return ('np.%s(%r)' % ({'i': 'int64', 'f': 'float64', 'c': 'complex128'}[v[1]], v[2])) if is_np_num(v) else repr(v[2])
     return 'array%r%s' % (tuple(v[2]), repr(v[3][:4])[:-1] + (', ...]' if len(v[3]) > 4 else ']'))
 
 
@@ -778,6 +786,10 @@ def call_forms(op, a, b):
     """the ways Python reaches the operator: plain, in-place, explicit (reflected) dunder"""
     forms = [('plain', lambda x, y: PYOP[op](x, y)), ('inplace', lambda x, y: PYIOP[op](x, y))]
     d, r = DUNDER[op]
+    if is_np_num(a) and b[0] == 'arr':
+        # np.float64(2) + A is numpy's own scalar operator (it broadcasts and never asks MathArray: the library's issue #124,
+        # outside "MathArray operators"); A.__radd__(np.float64(2)) is MathArray's
+        forms = []
     if a[0] == 'arr':
         forms.append((d, lambda x, y: getattr(x, d)(y)))
     elif b[0] == 'arr':
@@ -865,7 +877,7 @@ def run_op_case(op, a, b, negpow, rec, res, terms, metas):
     metas.append({'op': op, 'a': jsonable(a), 'b': jsonable(b), 'negpow': negpow,
                   'observed': [(f, s, repr(o)[:120]) for f, s, o in outcomes]})
     ident = (op, a[0], a[1], tuple(a[2]) if a[0] == 'arr' else (), b[0], b[1], tuple(b[2]) if b[0] == 'arr' else (),
-             negpow, repr(a[-1]), repr(b[-1]))
+             negpow, repr(a[2:]), repr(b[2:]))
     if not (a[0] == 'num' and b[0] == 'num'):
         res.nontrivial.add(ident)
     return expect, outcomes
@@ -944,6 +956,23 @@ def op_level(ctx, res, rng, rec):
             run_op_case(op, a, b, True, rec, res, terms, metas)
             nvalid += 1
     res.distribution['operator_defined_pairs'] = nvalid
+    # numpy-typed scalars (np.float64 / np.complex128, e.g. what numpy-backed functions return) against every array shape: as
+    # right operand in all forms, as left operand through the reflected dunder (the plain form never reaches MathArray)
+    nnp = 0
+    for sh in [x for x in SHAPES if x != ()]:
+        for op in OPS:
+            for side in ('left', 'right'):
+                k = rng.choice(['f', 'c'])
+                if op == 'Pow' and side == 'right':
+                    k, z = rng.choice([e for e in EXPONENTS if e[0] != 'i'])
+                    sc = ('num', k, z, 'np')
+                else:
+                    sc = gen_scalar(rng, k) + ('np',)
+                arr = gen_value(rng, sh, rng.choice(kinds))
+                a, b = (sc, arr) if side == 'left' else (arr, sc)
+                run_op_case(op, a, b, True, rec, res, terms, metas)
+                nnp += 1
+    res.distribution['operator_numpy_scalar_cases'] = nnp
     # powers of square matrices: every exponent class x singular / non-singular x entry kinds, both switch positions
     npow = 0
     for n in (2, 3, 4):
@@ -993,7 +1022,7 @@ def render(t):
     k = t[0]
     if k == 'pow':
         return render_pow(t[1])
-    if k in ('num', 'var'):
+    if k in ('num', 'var', 'fun'):
         return t[1]
     if k == 'arr':
         return '[' + ','.join(render(x) for x in t[1]) + ']'
@@ -1004,8 +1033,21 @@ def render(t):
     return '(' + render(t[1]) + ')'
 
 
+_FUN_SEXP = {}
+
+
+def fun_sexp(text):
+    """a function call is an opaque leaf here (its value is recorded from the implementation): its own parse tree"""
+    from mitxgraders.helpers.calc.expressions import parse
+    if text not in _FUN_SEXP:
+        _FUN_SEXP[text] = actual_sexp(parse(text).tree)
+    return _FUN_SEXP[text]
+
+
 def expected_sexp(t):
     k = t[0]
+    if k == 'fun':
+        return fun_sexp(t[1])
     if k == 'num':
         return ('number', [t[1].upper()])
     if k == 'var':
@@ -1036,6 +1078,8 @@ def expr_term(t, env):
         return '(EVal %s)' % val_term(('num', 'f', float(t[1])))
     if k == 'var':
         return '(EVal %s)' % val_term(env[t[1]])
+    if k == 'fun':
+        return '(EVal %s)' % val_term(t[2])
     if k == 'arr':
         return '(EArr %s)' % listlit([expr_term(x, env) for x in t[1]])
     if k == 'neg':
@@ -1062,6 +1106,8 @@ def ref_eval(t, env, negpow, notes):
         return ('val', G.of(float(t[1])))
     if k == 'var':
         return ('val', to_ref(env[t[1]]))
+    if k == 'fun':
+        return ('val', to_ref(t[2]))
     if k == 'par':
         return ref_eval(t[1], env, negpow, notes)
     if k == 'arr':
@@ -1127,6 +1173,44 @@ def ref_eval(t, env, negpow, notes):
             return r
         acc = r[1]
     return ('val', acc)
+
+
+def user_scalar_functions():
+    """author-defined functions that hand back numpy-typed (and, for contrast, Python-typed) scalars"""
+    np = np_()
+    return {'npf': lambda x: np.float64(2 * x), 'npc': lambda x: np.complex128(complex(x, 2)),
+            'npi': lambda x: np.int64(3 * x), 'pyf': lambda x: float(2 * x)}
+
+
+def function_table(name):
+    if name == 'none':
+        return {}
+    from mitxgraders.helpers.calc.expressions import DEFAULT_FUNCTIONS
+    from mitxgraders import MatrixGrader
+    table = dict(DEFAULT_FUNCTIONS if name == 'default' else MatrixGrader.default_functions)
+    table.update(user_scalar_functions())
+    return table
+
+
+# scalar-producing sub-expressions: (text, function table it needs)
+SCALAR_CALLS = [
+    # numpy-backed unary functions
+    ('sqrt(4)', 'default'), ('cos(0)', 'default'), ('exp(0)', 'default'), ('abs(-2)', 'default'), ('re(3+2*i)', 'default'),
+    ('im(3+2*i)', 'default'), ('conj(1+2*i)', 'default'), ('sqrt(-4)', 'default'), ('cosh(0)', 'default'), ('floor(2.5)', 'default'),
+    ('log10(100)', 'default'), ('arctan2(0,1)', 'default'), ('max(1,2)', 'default'), ('tan(1)', 'default'), ('exp(i)', 'default'),
+    # ... whose value is zero (the additive identity is allowed next to an array)
+    ('ln(1)', 'default'), ('sin(0)', 'default'), ('kronecker(1,2)', 'default'), ('im(2)', 'default'),
+    ('kronecker(1,1)', 'default'),
+    # array-to-scalar functions
+    ('norm([3,4])', 'matrix'), ('det([[1,2],[3,4]])', 'matrix'), ('trace([[1,2],[3,4]])', 'matrix'), ('abs([3,4])', 'matrix'),
+    ('norm(w)', 'matrix'), ('det(N)', 'matrix'), ('trace(N)', 'matrix'), ('abs(w)', 'matrix'), ('det(N-N)', 'matrix'),
+    # author-defined functions returning numpy / Python scalars
+    ('npf(3)', 'default'), ('npc(1)', 'matrix'), ('npi(2)', 'default'), ('pyf(3)', 'matrix'), ('npf(0)', 'default'),
+]
+# scalar-valued names: default constants, numpy-typed and Python-typed author constants
+SCALAR_NAMES = {'pi': ('num', 'f', 3.141592653589793), 'e': ('num', 'f', 2.718281828459045), 'i': ('num', 'c', 1j),
+                'c64': ('num', 'f', 2.0, 'np'), 'c128': ('num', 'c', 1 + 2j, 'np'), 'ci64': ('num', 'i', 3, 'np'),
+                'z64': ('num', 'f', 0.0, 'np'), 'z128': ('num', 'c', 0j, 'np'), 'pf': ('num', 'f', 2.0), 'pc': ('num', 'c', 1 - 1j)}
 
 
 class FormulaGen:
@@ -1294,8 +1378,15 @@ def sprod_py(shape):
     return n
 
 
+def evaluator_value(text, env, table):
+    from mitxgraders.helpers.calc.expressions import evaluator
+    return evaluator(text, variables={k: to_impl(v) for k, v in env.items()}, functions=function_table(table), suffixes={})[0]
+
+
 def has_division_or_negpow(t):
     k = t[0]
+    if k == 'fun':
+        return True                 # recorded float value (det, ln, ...): compared within the declared tolerance
     if k in ('num', 'var'):
         return False
     if k == 'arr':
@@ -1307,7 +1398,7 @@ def has_division_or_negpow(t):
     return has_division_or_negpow(t[1]) or any(o == '/' or has_division_or_negpow(e) for o, e in t[2])
 
 
-def run_formula_case(tree, env, negpow, rec, res, terms, metas, tag):
+def run_formula_case(tree, env, negpow, rec, res, terms, metas, tag, functions='none', inexact=False):
     from mitxgraders.helpers.calc.expressions import evaluator, parse
     from mitxgraders.helpers.calc.math_array import MathArray
     formula = render(tree)
@@ -1317,20 +1408,21 @@ def run_formula_case(tree, env, negpow, rec, res, terms, metas, tag):
                                 (formula, parsed if st_p != 'ret' else actual_sexp(parsed.tree))))
         return
     variables = {k: to_impl(v) for k, v in env.items()}
+    ftable = function_table(functions)
     rec.take()
 
     def call():
         if negpow:
-            return evaluator(formula, variables=variables, functions={}, suffixes={})[0]
+            return evaluator(formula, variables=variables, functions=ftable, suffixes={})[0]
         with MathArray.enable_negative_powers(False):
-            return evaluator(formula, variables=variables, functions={}, suffixes={})[0]
+            return evaluator(formula, variables=variables, functions=ftable, suffixes={})[0]
     st, out = core.guarded(call)
     res.oracle_evals += 1
     tab_term, entries = inv_table(rec.take())
     rank_term, rank_entries = rank_table(rec.take_rank())
     notes = []
     expect = ref_eval(tree, env, negpow, notes)
-    loose = has_division_or_negpow(tree)
+    loose = inexact or has_division_or_negpow(tree)     # float rounding possible: compare within the declared tolerance
     key = 'formula_expect_' + ('value' if expect[0] == 'val' else 'error' if expect == ERR else 'outside')
     res.distribution[key] = res.distribution.get(key, 0) + 1
     if 'triple' in notes:
@@ -1351,12 +1443,14 @@ def run_formula_case(tree, env, negpow, rec, res, terms, metas, tag):
         res.witnesses.append({'key': 'formula:%s:%s:%s' % (formula, negpow, sorted((k, jsonable(v)) for k, v in env.items())),
                               'kind': 'formula', 'code': code, 'formula': formula, 'negpow': negpow,
                               'variables': {k: jsonable(v) for k, v in env.items()}, 'observed': repr(out)[:160],
+                              'functions': functions,
                               'what': 'evaluator(%r)%s: %s' % (formula, '' if negpow else ' with negative powers disabled', text)})
     tol = Fraction(1, 10**9) * Fraction(1 + (amax(got) if got and finite(got) else 0)) if loose else 0
     inverted_singular = any(sing and b is not None for _, _, b, sing, _ in entries)
     terms.append('(%s, %s, %s, %s, %s)' % (boollit(negpow), expr_term(tree, env), rank_term, tab_term,
                                            obs_term(st, out, tol, shape_only=guard or inverted_singular, zero_div_any=True)))
-    metas.append({'formula': formula, 'negpow': negpow, 'variables': {k: jsonable(v) for k, v in env.items()},
+    metas.append({'formula': formula, 'negpow': negpow, 'functions': functions,
+                  'variables': {k: jsonable(v) for k, v in env.items()},
                   'observed': (st, repr(out)[:160])})
     res.nontrivial.add((tag, formula, negpow, repr(sorted((k, jsonable(v)) for k, v in env.items()))))
     return expect, st, out
@@ -1474,6 +1568,52 @@ def formula_level(ctx, res, rng, rec):
         run_formula_case(tree, g.env, rng.random() < 0.9, rec, res, terms, metas, 'typed')
         n_typed += 1
     res.distribution['formula_typed_trees'] = n_typed
+    # 4c. every kind of scalar-producing sub-expression as the LEFT and the RIGHT operand of + - * / ^ directly against array
+    #     literals and array-valued variables (numpy scalars that survive into the tree would broadcast from the left)
+    n_sc = 0
+    base_env = {'w': ('arr', 'i', (3,), [2, -1, 2]), 'N': ('arr', 'f', (2, 2), [1.0, 2.0, 0.5, 3.0]), 'i': ('num', 'c', 1j)}
+    arrays = [('lit', ('arr', [('num', '1'), ('num', '2'), ('num', '3')])),
+              ('lit', ('arr', [('arr', [('num', '1'), ('num', '2')]), ('arr', [('num', '3'), ('num', '4')])])),
+              ('lit', ('arr', [('num', '2'), ('neg', ('num', '0.5'))])),
+              ('var', (3,)), ('var', (2,)), ('var', (2, 2)), ('var', (2, 3)), ('var', (3, 1)), ('var', (2, 2, 2))]
+    sources = [('fun', text, table) for text, table in SCALAR_CALLS] + [('name', nm, 'default') for nm in sorted(SCALAR_NAMES)] \
+        + [('lit', '2', 'none'), ('lit', '0', 'none')]
+    full = thorough or ctx.get('escalate')
+    for kind, text, table in sources:
+        env0 = dict(base_env)
+        if kind == 'fun':
+            stv, val = core.guarded(lambda: evaluator_value(text, env0, table))
+            leafv = from_impl(val) if stv == 'ret' else None
+            if leafv is None or leafv[0] != 'num' or not finite(leafv):
+                res.corr_errors.append(('c14_scalar_source', 'scalar source %r did not evaluate to a number: %r' % (text, val)))
+                continue
+            leaf = ('fun', text, leafv)
+        elif kind == 'name':
+            env0[text] = SCALAR_NAMES[text]
+            leaf = ('var', text)
+        else:
+            leaf = ('num', text)
+        for op in OPS:
+            for side in ('left', 'right'):
+                picks = arrays if full else [arrays[rng.randrange(3)], arrays[3 + rng.randrange(6)]]
+                for akind, spec in picks:
+                    env = dict(env0)
+                    if akind == 'lit':
+                        arr = spec
+                    else:
+                        env['a0'] = gen_value(rng, spec, rng.choice(['i', 'f', 'c']))
+                        arr = ('var', 'a0')
+                    x, y = (leaf, arr) if side == 'left' else (arr, leaf)
+                    if op == 'Pow':
+                        tree = ('pow', [x, y])
+                    elif op in ('Add', 'Sub'):
+                        tree = ('sum', x, [(SYM[op], y)])
+                    else:
+                        tree = ('prod', x, [(SYM[op], y)])
+                    run_formula_case(tree, env, True, rec, res, terms, metas, 'scalar-source', functions=table, inexact=True)
+                    n_sc += 1
+    res.distribution['formula_scalar_source_cases'] = n_sc
+    res.distribution['formula_scalar_sources'] = len(sources)
     # 5. array literals, ragged and regular
     n_lit = 0
     for _ in range(150 if not thorough else 1000):
@@ -1585,6 +1725,32 @@ def grader_scenarios():
     }
 
 
+# scalar-producing sub-expressions (with their value) placed directly next to an array in a student's input
+SCALAR_GRADER_SOURCES = [('sqrt(4)', 2), ('cos(0)', 1), ('exp(0)', 1), ('abs(-2)', 2), ('re(3+2*i)', 3), ('norm([3,4])', 5),
+                         ('trace([[1,2],[3,4]])', 5), ('abs([3,4])', 5), ('kronecker(1,1)', 1), ('npf(1)', 2), ('npi(1)', 3),
+                         ('pyf(1)', 2), ('c64', 2), ('ci64', 3), ('pf', 2), ('2', 2)]
+
+
+def scalar_grader_case(answer, inp):
+    """MatrixGrader verdict on an input that puts a scalar-producing sub-expression directly next to an array"""
+    np = np_()
+    from mitxgraders import MatrixGrader, RealVectors, RealMatrices
+    grader = MatrixGrader(answers=answer, variables=['v', 'M'], max_array_dim=2,
+                          sample_from={'v': RealVectors(shape=3), 'M': RealMatrices(shape=[2, 2])},
+                          user_constants={'c64': np.float64(2), 'ci64': np.int64(3), 'pf': 2.0},
+                          user_functions=user_scalar_functions())
+    return core.guarded(grader, None, inp)
+
+
+def scalar_grader_inputs():
+    out = []
+    for src, k in SCALAR_GRADER_SOURCES:
+        vec = '[%d,%d,%d]' % (k, k, k)
+        out += [('v+' + vec, src + '+v'), (vec + '-v', src + '-v'), ('v', src + '/v'), ('M', src + '^M'), ('M', src + '/M'),
+                ('v+' + vec, 'v+' + src), ('v-' + vec, 'v-' + src), ('M', 'M/v+' + src)]
+    return out
+
+
 GRADER_CFGS = [{}, {'suppress_matrix_messages': True}, {'shape_errors': False}]
 
 
@@ -1659,6 +1825,20 @@ def grader_level(ctx, res, rng):
                                           'what': 'MatrixGrader(negative_powers=False%s) [%s] on %r: %s' %
                                                   (''.join(', %s=%r' % kv for kv in sorted(cfg.items())), name, inp, text)})
                 res.nontrivial.add(('grader', name, inp, repr(sorted(cfg.items()))))
+    # inputs in which a scalar-producing sub-expression meets an array directly under + - / ^ : linear algebra defines nothing, so
+    # the grader must raise the student-facing error (the answers are what a silent broadcast would have produced)
+    nsc = 0
+    for answer, inp in scalar_grader_inputs():
+        st, out = scalar_grader_case(answer, inp)
+        res.oracle_evals += 1
+        nsc += 1
+        if not (st == 'exc' and student_facing(out)):
+            res.witnesses.append({'key': 'grader-scalar:%s:%s' % (answer, inp), 'kind': 'grader-scalar', 'code': 'graded-where-undefined',
+                                  'answer': answer, 'input': inp,
+                                  'what': 'MatrixGrader(answers=%r) on %r: %s %r where the property demands a student-facing error '
+                                          '(a scalar next to an array under + - / ^)' % (answer, inp, st, out)})
+        res.nontrivial.add(('grader-scalar', answer, inp))
+    res.distribution['matrixgrader_scalar_source_calls'] = nsc
     res.distribution['matrixgrader_calls'] = n
     res.distribution['matrixgrader_calls_by_scenario'] = hist
     res.distribution['matrixgrader_switch_observations'] = nprobe
@@ -1735,11 +1915,13 @@ def replay(w):
         env = {k: unjson(v) for k, v in w['variables'].items()}
         variables = {k: to_impl(v) for k, v in env.items()}
         negpow = w['negpow']
+        ftable = function_table(w.get('functions', 'none'))
+
         def call():
             if negpow:
-                return evaluator(w['formula'], variables=variables, functions={}, suffixes={})[0]
+                return evaluator(w['formula'], variables=variables, functions=ftable, suffixes={})[0]
             with MathArray.enable_negative_powers(False):
-                return evaluator(w['formula'], variables=variables, functions={}, suffixes={})[0]
+                return evaluator(w['formula'], variables=variables, functions=ftable, suffixes={})[0]
         st, out = core.guarded(call)
         code = w.get('code')
         if code == 'non-student-facing-exception':
@@ -1754,6 +1936,10 @@ def replay(w):
         hit = [b for b in bad if b[0] == w.get('code')]
         return bool(hit), 'MatrixGrader(negative_powers=False, %r) [%s] on %r -> %s %r; switch seen by user function: %r; verdict: %s' % (
             w['config'], w['scenario'], w['input'], st, repr(out)[:200], seen, hit or 'satisfied')
+    if kind == 'grader-scalar':
+        st, out = scalar_grader_case(w['answer'], w['input'])
+        bad = not (st == 'exc' and student_facing(out))
+        return bad, 'MatrixGrader(answers=%r)(None, %r) -> %s %r' % (w['answer'], w['input'], st, out)
     return False, 'unknown witness kind %r' % (kind,)
 
 
